@@ -7,7 +7,7 @@ DECIDING = ["M-SOLVER", "M-PART", "M-COVER", "M-EQ"]
 LEVEL = "exploration"
 RULE = ("every case = one continuum (small to medium: up to 2x40, 3x12, 4x6, 5x4 units; plus a block of 2x~180 and 3x~40 dense "
         "continua with 10 000 - 50 000 candidate unitary alignments, plus a sweep of 3-annotator continua through the point where a "
-        "triple and a pair + singleton cost the same, in steps of 1/256) and one pooled dissimilarity, "
+        "triple and a pair + singleton cost the same, in steps of 1/256, plus a corpus of continua whose programme has an integrality gap so that every back-end must branch) and one pooled dissimilarity, "
         "aligned (best and soft) under three solver configurations: cylp importable (CBC), `import cylp` raising "
         "ImportError (GLPK), CBC raising cvxpy.SolverError (fault injection, GLPK); a spy on cvxpy.Problem.solve "
         "proves which solver ran; non-trivial = >= 2 units and >= 2 non-empty annotators; distinct by SHA-1")
@@ -93,6 +93,12 @@ def run(ctx):
         ctx.begin_case(case)
         ctx.observe("family", "near-tie-sweep")
         check_case(ctx, case)
+    # continua whose partition or cover programme has an integrality gap: every back-end has to branch on them
+    hard = ac.hard_mip_cases(ctx, "partition", limit=ctx.scale(14, None)) + ac.hard_mip_cases(ctx, "cover", limit=ctx.scale(6, None), min_gap=1e-3)
+    for hc in hard:
+        ctx.begin_case(hc)
+        ctx.observe("family", "integrality-gap")
+        check_case(ctx, hc)
     for _ in range(ctx.scale(150, 3000)):
         if ctx.out_of_time():
             break
